@@ -357,6 +357,8 @@ def main(prop, tier, replay_path=None, jobs=None):
                 arm, k, ns, per, s = futs[fut]
                 try:
                     results.append(fut.result())
+                    if os.environ.get("VERIF_DEBUG"):
+                        print("debug: %.1fs arm=%s shard=%d wall=%.1f" % (time.time() - t0, arm.name, k, results[-1]["wall"]), file=sys.stderr)
                 except Exception as e:
                     harness_errors.append("arm=%s shard=%d seed=%d: %s\n%s" % (
                         arm.name, k, s, safe_repr(e), "".join(traceback.format_exception(e))[-3000:]))
